@@ -93,6 +93,8 @@ impl HostHooks for SimHooks {
 /// Everything the simulator holds next to a context.
 pub struct Host {
     pub trace: Trace,
+    /// separate channel for observations that may legitimately depend on collector timing
+    pub weak: Trace,
     pub ticks: Rc<Cell<u64>>,
     pub clock: Rc<SimClock>,
     pub hooks: Rc<SimHooks>,
@@ -116,7 +118,7 @@ pub fn new_context<E: JobExecutor + 'static, L: ModuleLoader + 'static>(
         b = b.module_loader(l);
     }
     let mut ctx = b.build().expect("context builds");
-    let host = Host { trace: Trace::default(), ticks: Rc::new(Cell::new(0)), clock, hooks };
+    let host = Host { trace: Trace::default(), weak: Trace::default(), ticks: Rc::new(Cell::new(0)), clock, hooks };
     install_natives(&mut ctx, &host);
     (ctx, host)
 }
@@ -142,6 +144,19 @@ pub fn install_natives(ctx: &mut Context, host: &Host) {
         })
     };
     ctx.register_global_builtin_callable(js_string!("print"), 1, print).expect("print");
+    let weak = host.weak.clone();
+    // SAFETY: the closure captures only an Rc<RefCell<Vec<String>>>, nothing traceable.
+    let weakobs = unsafe {
+        NativeFunction::from_closure(move |_this, args, ctx| {
+            let mut parts = Vec::with_capacity(args.len());
+            for a in args {
+                parts.push(a.to_string(ctx)?.to_std_string_escaped());
+            }
+            weak.push(parts.join(" "));
+            Ok(JsValue::undefined())
+        })
+    };
+    ctx.register_global_builtin_callable(js_string!("weakobs"), 2, weakobs).expect("weakobs");
     let ticks = host.ticks.clone();
     // SAFETY: captures only an Rc<Cell<u64>>.
     let tick = unsafe {
@@ -209,14 +224,11 @@ pub fn is_engine_panic(s: &str) -> bool {
     s.starts_with("enginepanic:")
 }
 
-/// Side-effect-light rendering of a value (no user code is run for objects).
-pub fn show(v: &JsValue, ctx: &mut Context) -> String {
+/// Side-effect-free rendering of a value: primitives by display, objects by kind only (no user
+/// code runs, nothing address- or layout-dependent is printed).
+pub fn show(v: &JsValue, _ctx: &mut Context) -> String {
     if let Some(o) = v.as_object() {
-        // Error objects: name and message through ordinary gets would run user code; use display.
-        let _ = ctx;
-        let d = v.display().to_string();
-        let _ = o;
-        return d;
+        return if o.is_callable() { "[function]".into() } else if o.is_array() { "[array]".into() } else { "[object]".into() };
     }
     v.display().to_string()
 }
@@ -233,6 +245,9 @@ pub enum GcPolicy {
     EveryK(u64),
     /// collect at exactly these allocation point indices (since install), sorted
     Indices(Vec<u64>),
+    /// collect at each allocation point with probability per_mille/1000, decided by a private
+    /// generator seeded from the scenario (so the schedule is a pure function of the scenario)
+    Bernoulli { seed: u64, per_mille: u32 },
 }
 
 pub struct GcInstall {
@@ -259,6 +274,17 @@ pub fn install_gc(policy: &GcPolicy) -> GcInstall {
             }
             hit
         }))),
+        GcPolicy::Bernoulli { seed, per_mille } => {
+            let mut rng = crate::rng::Rng::new(seed);
+            boa_gc::verif::set_policy(Some(Box::new(move |_| {
+                p.set(p.get() + 1);
+                let hit = rng.below(1000) < u64::from(per_mille);
+                if hit {
+                    f.set(f.get() + 1);
+                }
+                hit
+            })));
+        }
         GcPolicy::Indices(v) => {
             let mut pos = 0usize;
             boa_gc::verif::set_policy(Some(Box::new(move |_| {
